@@ -129,6 +129,7 @@ class Runner(object):
     self.up = set()
     self.now = 0                          # whole seconds since the start
     self.since = {}                       # switch -> time of its last connect
+    self.flight = set()                   # spec wires with a delayed probe on its way (Topo.tla flight)
 
   # spec link -> concrete link and back
   def cl(self, l):
@@ -148,6 +149,9 @@ class Runner(object):
     nf = sorted([self.sw_of[d], self.port_of[d][p]]
                 for d, nd in net.nodes.items() for p in nd.port_nos if nd.noflood(p))
     return dict(adj=adj, evs=evs, nf=nf)
+
+  def observe_adj(self):
+    return sorted(self.al(*l) for l in self.net.adjacency())
 
   def converged(self):
     if len(self.up) != self.n:
@@ -182,6 +186,23 @@ class Runner(object):
       net.link_up(self.cl(st["lk"]))
       net._settle()
       return rec(a=a, lk=list(st["lk"]), **self.observe())
+    if a == "Delay":
+      # Topo.tla Delay(w): enabled for a known live wire (and only a probe that did travel can be delayed)
+      l = list(st["lk"])
+      if not (l in self.observe_adj() and self.cl(l) in net.phys and l[0] in self.up and l[2] in self.up
+              and tuple(l) not in self.flight and net.delay(self.cl(l))):
+        return None
+      self.flight.add(tuple(l))
+      net._settle()
+      return rec(a=a, lk=l, **self.observe())
+    if a == "Late":
+      # Topo.tla Late(w, R): the delayed probe is handed to the controller by the receiving switch
+      l = list(st["lk"])
+      if tuple(l) not in self.flight or l[2] not in self.up:
+        return None
+      self.flight.discard(tuple(l))
+      net.late(self.cl(l))
+      return rec(a=a, lk=l, **self.observe())
     if a == "Flood":
       if not self.converged():
         return None                # the spec's Flood is enabled in converged states only
